@@ -22,6 +22,8 @@ pub struct OrigRun {
     pub luau_only: bool,
     /// calls of the original whose `(` starts a new line (such programs are not compared on that point)
     pub ambiguous_calls: usize,
+    /// assignments to `const` variables in the original (Luau refuses to compile such a program)
+    pub const_assignments: usize,
     /// per dialect: Some(outcome) when the original is in the domain under that dialect
     pub lua51: Option<Outcome>,
     pub luau: Option<Outcome>,
@@ -57,7 +59,8 @@ pub fn run_original(text: &str, make_cfg: &dyn Fn(Dialect) -> Config) -> Result<
     let luau_dialect_events = luaref::take_dialect_events();
     let lua51_out = p51.as_ref().map(|p| luaref::run(&p.block, &make_cfg(Dialect::Lua51)));
     let luau_only = p51.is_none();
-    let mut r = OrigRun { luau_only, ambiguous_calls: p_luau.ambiguous_calls.len(), lua51: None, luau: None, luau_dialect_events, lua51_target: false };
+    let const_assignments = luasyn::resolve::resolve(&p_luau.block).assigned_constants().len();
+    let mut r = OrigRun { luau_only, ambiguous_calls: p_luau.ambiguous_calls.len(), const_assignments, lua51: None, luau: None, luau_dialect_events, lua51_target: false };
     if in_domain(&luau_out) {
         r.luau = Some(luau_out);
     }
@@ -127,6 +130,12 @@ pub fn compare(orig: &OrigRun, transformed: &str, make_cfg: &dyn Fn(Dialect) -> 
             "the output has a call whose `(` starts a new line (token #{}): Lua 5.1 and Luau reject it as ambiguous syntax",
             t_luau.ambiguous_calls[0]
         ));
+    }
+    // Luau refuses to compile an assignment to a `const` variable
+    if orig.const_assignments == 0 {
+        if let Some(name) = luasyn::resolve::resolve(&t_luau.block).assigned_constants().first() {
+            return Verdict::Differs(format!("the output assigns to `{}`, which it declares with `const`: Luau refuses to compile it (the original has no such assignment)", name));
+        }
     }
     let mut dialects = 0;
     let mut n_emits = 0;
